@@ -280,7 +280,7 @@ def run(tier, seed):
         "prediction (refused iff duplicate or illegal) and in every state each exact lookup is compared with a scan; "
         "non-trivial = distinct states")
     found = {}
-    deadline = time.time() + (200 if tier == "quick" else 3000)
+    deadline = time.time() + (900 if tier == "quick" else 6000)
     scns = scenarios.naming_scenarios()
     k = seed % len(scns)
     for scn in scns[k:] + scns[:k]:
